@@ -155,3 +155,28 @@ def constant_or_linear_in_a_variable_gives_zero(S):
     expect("laplacian-x", lambda: S.call(DO + "laplacian", u, x), exact["pxx"])
     expect("laplacian-t", lambda: S.call(DO + "laplacian", u, t), exact["ptt"])
     expect("grad-x-t", lambda: S.call(DO + "grad", u, x, t), lambda q: core.select_comp(q[1][0], 2, [lambda: z3.RealVal(0) + exact["px"](q), lambda: z3.RealVal(0) + exact["pt"](q)]))
+
+
+@scenario("C03", [DO + "div", DO + "matrix_div", DO + "jac"], configs=["1,1,1", "2,1,1", "1,2"], bounded=BOUND + "; several derivative variables of the listed dimensions")
+def divergence_over_several_variables(S):
+    """post: with variables (x_1, ..., x_v) the k-th component of x_i is paired with output component
+    off_i + k, off_i = sum of the dimensions of the preceding variables ('any number and order of variables')"""
+    dims = [int(x) for x in S.cfg.split(",")]
+    N = S.int("N", 1)
+    vs = [leaf(S, f"v{i}", N, d) for i, d in enumerate(dims)]
+    m = sum(dims)
+    U = [z3.Function(f"U_{c}", *([z3.RealSort()] * m + [z3.RealSort()])) for c in range(m)]
+
+    def ins(r):
+        out = []
+        for v, d in zip(vs, dims):
+            out += [zreal(v.val.at([r, (k,) if d != 1 else ()])) for k in range(d)]
+        return out
+
+    out = Tensor(STensor([core.dim_of(N), Dim([m])], lambda idx: core.select_comp(idx[1][0] if m != 1 else 0, m, [(lambda f=f: f(*ins(idx[0]))) for f in U]), "real", "u"))
+    dv = S.call(DO + "div", out, *vs).val
+    S.ensure("div-shape", dv.rank == 2 and dv.shape[1].is_one)
+    S.forall("div-pairs-component-c-with-the-c-th-coordinate-over-all-variables", Tensor(dv), lambda q: zreal(dv.at(q)) == sum((jets.deriv_symbol(U[c], c)(*ins(q[0])) for c in range(m)), z3.RealVal(0)))
+    J = S.call(DO + "jac", out, *vs).val
+    S.ensure("jac-shape", J.rank == 3 and J.shape[1].concrete() == m and J.shape[2].concrete() == m)
+    S.forall("jac-columns-follow-the-order-of-the-variables", Tensor(J), lambda q: z3.And([zreal(J.at([q[0], (i,), (k,)])) == jets.deriv_symbol(U[i], k)(*ins(q[0])) for i in range(m) for k in range(m)]))
